@@ -1922,7 +1922,12 @@ class t2data(object):
         for gen in self.generatorlist:
             if gen.type in convert: gen.type = convert[gen.type]
             elif not ((gen.type in allowed) or gen.type.startswith('COM')):
-                delgens.append((gen.block, gen.name))
+                delgens.append(gen)
+        for gen in delgens:
+            self.generatorlist.remove(gen)
+            if self.generator.get((gen.block, gen.name)) is gen:
+                del self.generator[(gen.block, gen.name)]
+        delgens = [(gen.block, gen.name) for gen in delgens]
         if warn and len(delgens) > 0:
             print('The following generators have types not supported' + \
                   ' by TOUGH2 and have been deleted:')
